@@ -39,6 +39,9 @@ func (d *Deep) Set(k string, v int) {
 	d.b.Inc()
 }
 
+// Shared is contended by every caller.
+var Shared = &Box{}
+
 func NewDeep() *Deep { return &Deep{b: &Box{}, m: map[string]int{}} }
 
 // Pipeline: producer with select on done, labelled break, defer close.
